@@ -16,11 +16,13 @@ Everything is well-defined by construction: callee dummies are fully defined by 
 only indexed 1..nn (or the declared bounds), integers are bounded, reals damped.  Features with a known defect
 mechanism ("hazards") are switched on by exactly one flag each so that a case carries at most one hazard.
 """
+import re
 from dataclasses import dataclass, field
 from vlib.fgenlab import ProgGen, ExprGen, Env, Var, DEFAULT_FLAGS
 
 HAZARDS = ('callee_return', 'dummy_name_capture', 'expr_actual_modified', 'absent_optional_ref',
            'fun_in_while', 'fun_in_elseif', 'kind_selected', 'autoarr_two_sizes', 'fun_return', 'neg_const',
+           'assumed_shape_lb',
            'fun_array_arg', 'fun_in_inline_if', 'const_chain', 'assoc_param', 'fun_keyword_arg', 'nested_same_fun')
 
 INL_FLAGS = dict(
@@ -99,6 +101,8 @@ class InlineGen(ProgGen):
         nn = dn['nn']
         ashape = f['assumed_shape'] and not internal and rng.random() < 0.3
         lb0 = (not ashape) and rng.random() < 0.3
+        if f['assumed_shape_lb']:
+            ashape, lb0 = True, False
         dims_in = ('1', nn, nn) if not lb0 else ('0', f'{nn} - 1', nn)
         dummies = [Var(nn, 'int', intent='in', bound=8),
                    Var(dn['xin'], 'real', 1, (dims_in,), 'in')]
@@ -390,10 +394,17 @@ class InlineGen(ProgGen):
                       if not any(x in excluded for x in _idents(t[1]))} for fr in self.env.assoc]
         return env
 
-    def _array_actual(self, size_mode, exclude=(), writable=False):
-        """returns (text, basename, nn_text) for a rank-1 real actual argument of the given size mode"""
+    def _array_actual(self, size_mode, exclude=(), writable=False, lb1_only=False):
+        """returns (text, basename, nn_text) for a rank-1 real actual argument of the given size mode;
+        lb1_only: only arrays declared with lower bound 1 (assumed-shape dummies, see hazard assumed_shape_lb)"""
         env, rng, f = self.env, self.rng, self.flags
         cands = []
+        if f['assumed_shape_lb'] and size_mode == 'n' and not writable:
+            lbv = [v for v in env.arrays('real', rank=1) if v.dims[0][2] == 'n' and v.dims[0][0] != '1'
+                   and v.name not in exclude]
+            if lbv:
+                self.features.add('assumed_shape_lb')
+                return (lbv[0].ref, lbv[0].name, 'n')
         for v in env.arrays('real'):
             if v.name in exclude or (v.derived_of and v.derived_of in exclude) or v.kind == 'paramdim':
                 continue
@@ -401,7 +412,7 @@ class InlineGen(ProgGen):
                 continue
             if v.rank == 1 and v.dims[0][2] == 'n':
                 lo = int(v.dims[0][0])
-                if lo != 1 and not f['lbound_actual']:
+                if lo != 1 and (not f['lbound_actual'] or lb1_only):
                     continue
                 if size_mode == 'n':
                     opts = [v.ref]
@@ -463,17 +474,19 @@ class InlineGen(ProgGen):
             modes = ['n']
         if f['autoarr_two_sizes']:
             modes = ['min'] if name not in self.called else ['n']
+        if f['assumed_shape_lb']:
+            modes = ['n']
         size_mode = rng.choice(modes)
         used = set()
         amap = {}
         yio = None
         if sig['has']['yio']:
-            yio = self._array_actual(size_mode, writable=True)
+            yio = self._array_actual(size_mode, writable=True, lb1_only=sig['ashape'])
             if yio is None:
                 return None
             used.add(yio[1])
             amap[dn['yio']] = yio[0]
-        xin = self._array_actual(size_mode, exclude=used)
+        xin = self._array_actual(size_mode, exclude=used, lb1_only=sig['ashape'] and not f['assumed_shape_lb'])
         if xin is None or (yio and xin[2] != yio[2]):
             return None
         amap[dn['xin']] = xin[0]
@@ -596,6 +609,8 @@ class InlineGen(ProgGen):
         k, b = ex.int_expr(env, 1)
         if b > 40:
             k = f'mod({k}, 23)'
+        if re.match(r'^[0-9.]+_?\w*$', x):
+            x = f'({x})'     # 'f(<real literal>, a%b%c)' is misread by the frontend (complex-constant look-alike)
         args = [x, k]
         if sig.get('optional') and (not f['optional_absent'] or rng.random() < 0.5):
             # keyword form only in the hazard slice (a keyword argument inside an actual argument breaks the argument map)
